@@ -178,7 +178,7 @@ PLANS['C02'] = dict(
 PLANS['C16'] = dict(
     rule=RULE_B + RULE_A + 'non-trivial = the execution contained contention and debug-state calls.',
     groups=[
-        G('mu_mix', 'c-plain', 'B', 8, 2000, params=dict(debug=1), **MU),
+        G('mu_mix', 'c-plain', 'B', 14, 5000, thorough=40000, params=dict(debug=1), **MU),
         G('mu_mix', 'c-plain', 'A', 4, 1500, params=dict(debug=1), thorough=40000, **MU),
         G('debug_buf', 'c-asan', 'B', 2, 100, thorough=3000),
         G('debug_buf', 'c-asan', 'A', 1, 50, thorough=1000),
@@ -238,6 +238,8 @@ PLANS['C15'] = dict(
         G('deadlines', 'c-plain', 'B', 1, NCASE15, **C15G),
         G('deadlines', 'c-plain', 'B', 1, NCASE15, params=dict(intr=1), **C15G),     # interrupted futex waits (EINTR): must not be taken for a timeout
         G('deadlines', 'c-plain', 'A', 1, NCASE15, params=dict(intr=1), **C15G),
+        G('deadlines', 'c-plain', 'B', 1, NCASE15, params=dict(intr=2), **C15G),     # a spurious futex wake-up (return 0 without a post)
+        G('deadlines', 'c-plain', 'A', 1, NCASE15, params=dict(intr=2), **C15G),
         G('deadlines', 'cpp-plain', 'A', 1, NCASE15, params=dict(intr=1), tier='thorough', **C15G),
         G('deadlines', 'cpp-asan', 'A', 1, NCASE15, tier='thorough', **C15G),
         G('deadlines', 'c-plain', 'A', 4, NCASE15, tier='thorough', params=dict(noperturb=0), **C15G),
@@ -501,6 +503,9 @@ PLANS['C09']['groups'].append(G('notes', 'c-plain', 'B', 3, 1500, tier='thorough
 PLANS['C02']['groups'].append(G('mu_mix', 'c-plain', 'B', 4, 1500, owners=mu_mix_owners, params=dict(churn=1)))
 PLANS['C02']['groups'].append(G('mu_mix', 'c-plain', 'A', 2, 600, thorough=20000, owners=mu_mix_owners, params=dict(churn=1)))
 PLANS['C13']['groups'].append(G('mu_mix', 'c-asan', 'B', 2, 800, owners=c13_owners, params=dict(churn=1)))
+# long waiters: the starve scenario's mix 7 (random schedule after escalation, release while the long waiter holds the queue spinlock);
+# a thread that never gets the mutex there is C02's concern (added after seeded change C02f)
+PLANS['C02']['groups'].append(G('starve', 'c-plain', 'B', 4, 120, thorough=4000, strategy='rw', owners=mu_mix_owners, params=dict(mix=7)))
 PLANS['C02']['groups'].append(G('cond_rounds', 'c-binsem-plain', 'A', 1, 600, thorough=30000, owners=mu_mix_owners, **BINSEM))
 for _g in PLANS['C04']['groups']:
     if _g['variant'] == 'c-binsem-plain':
